@@ -248,7 +248,16 @@ func pkgState() uint64 {
 // library objects (e.g. lazily built tables), without calling any method.
 func fixDeep(f *alpha.Fix) uint64 {
 	h := newHasher()
-	deepHash(h, reflect.ValueOf(f).Elem(), map[uintptr]bool{}, 0)
+	v := reflect.ValueOf(f).Elem()
+	seen := map[uintptr]bool{}
+	for i := 0; i < v.NumField(); i++ {
+		if v.Type().Field(i).Name == "BigX" {
+			// 40000 values that only the heavy entry (excluded from the interleaving pass)
+			// touches; hashing them at every scheduling point would dominate the run
+			continue
+		}
+		deepHash(h, v.Field(i), seen, 1)
+	}
 	return h.h
 }
 
@@ -601,6 +610,8 @@ func (x *exec) hook(id int) {
 }
 
 func run(threads, devs []int, fix *alpha.Fix, monitor bool) *exec {
+	fix.LightSnapshots = true // the heavy entry is not part of any interleaving run
+
 	n := len(threads)
 	x := &exec{threads: threads, devs: devs, wake: make([]chan struct{}, n), done: make([]bool, n),
 		results: make([][]byte, n), panics: make([]string, n), fin: make(chan struct{}), monitor: monitor, fix: fix, blocked: make([]func() bool, n)}
@@ -750,6 +761,9 @@ func modeSched(bound, nthreads, shard, nshards int, mode string, fresh [][]byte)
 	switch mode {
 	case "ff": // the same call from every thread
 		for a := 0; a < n; a++ {
+			if alpha.Heavy[alpha.Entries[a].Name] {
+				continue
+			}
 			th := make([]int, nthreads)
 			for i := range th {
 				th[i] = a
@@ -759,6 +773,9 @@ func modeSched(bound, nthreads, shard, nshards int, mode string, fresh [][]byte)
 	case "all", "allx": // every unordered pair of different entries
 		for a := 0; a < n; a++ {
 			for b := a + 1; b < n; b++ {
+				if alpha.Heavy[alpha.Entries[a].Name] || alpha.Heavy[alpha.Entries[b].Name] {
+					continue
+				}
 				combos = append(combos, []int{a, b})
 			}
 		}
